@@ -268,7 +268,7 @@ class Scheduler:
         return tid
 
     async def cancel_task(self, tid):
-        if self.task_states[tid] in (LocalStatus.SUBMITTED, LocalStatus.RUNNING):
+        if self.task_states.get(tid) in (LocalStatus.SUBMITTED, LocalStatus.RUNNING):
             worker_task = self.tasks[tid]
             worker_task.cancel()
             self.task_states[tid] = LocalStatus.CANCELLED
